@@ -1,0 +1,21 @@
+package caddyfile
+
+import (
+	"encoding/json"
+	"testing"
+)
+
+// Witness for the C16 finding: `vars n Inf` adapted to a config whose vars handler could not be
+// marshalled ("json: unsupported value: +Inf") and was silently dropped ("handle":[null]).
+// Every scalar ScalarVal returns must be something json.Marshal accepts.
+func TestScalarValIsAlwaysMarshalable(t *testing.T) {
+	for _, text := range []string{"Inf", "+Inf", "-Inf", "inf", "Infinity", "-infinity", "NaN", "nan", "1.5", "1e3", "7", "true", "x"} {
+		d := NewTestDispenser("k " + text)
+		d.Next()
+		d.Next()
+		v := d.ScalarVal()
+		if _, err := json.Marshal(v); err != nil {
+			t.Errorf("ScalarVal(%q) = %#v cannot be marshalled: %v", text, v, err)
+		}
+	}
+}
